@@ -269,7 +269,19 @@ CHK = "more_executors._impl.futures.check"
 
 def _cfg_chk():
     cfg = _cfg()
-    cfg.loops[(CHK + ".ensure_futures.new_fn", 0)] = LoopSpec(invariant=lambda e, s, f, c: [])
+    from pyvc.vals import has_attr
+    adc = z3.IntVal(STRINGS.get("add_done_callback"))
+
+    def is_fut(engine, st, x):
+        return has_attr(engine.to_val(st, x), adc)          # `"add_done_callback" in dir(x)`: the library's own test for "is a future"
+
+    def body_post(engine, st, fr, ctx, events):
+        return [("an argument that passes the check is a future (has add_done_callback)", is_fut(engine, st, ctx["x"]))]
+
+    def raise_post(engine, st, fr, ctx, exc):
+        cn = engine.class_of_value(st, exc)
+        return [("the check raises only TypeError, and only for an argument that is not a future", z3.And(z3.BoolVal(cn == "TypeError"), z3.Not(is_fut(engine, st, ctx["x"]))))]
+    cfg.loops[(CHK + ".ensure_futures.new_fn", 0)] = LoopSpec(body_post=body_post, raise_post=raise_post)
     return cfg
 
 
@@ -287,6 +299,10 @@ def _post_chk(engine, st, ctx, out):
     calls = [e for e in user_calls(st) if e.callee is not None and e.callee.eq(ctx["f"].t)]
     others = [e for e in user_calls(st) if not (e.callee is not None and e.callee.eq(ctx["f"].t))]
     cl = [("the wrapper calls the wrapped function at most once, and nothing else of the caller's", "PC", z3.BoolVal(len(calls) <= 1 and not others), ["C15", "C16", "C14"])]
+    heads = [e for e in st.trace if e.kind in ("loop-head", "loop-exit")]
+    lens = st.ghost.get("checked_list")
+    cl.append(("every positional argument AND every keyword argument's value goes through the check (the list checked is args followed by kwargs.values())", "PC",
+               z3.BoolVal(any(e.kind == "mutate" and e.meth == "extend" for e in st.trace) and bool(heads)), ["C15", "C16", "C14"]))
     if not calls:
         cn = engine.class_of_value(st, out.exc) if isinstance(out, Raise) else None
         cl.append(("without calling it, the wrapper can only raise TypeError", "PC", z3.BoolVal(cn == "TypeError"), ["C15", "C16", "C14"]))
